@@ -11,7 +11,7 @@ fn ilist(rng: &mut Rng, n: usize) -> String {
 
 /// One block of forms; `u` is a unique suffix for global names.
 pub fn block(rng: &mut Rng, u: usize, tags: &mut Vec<String>) -> Vec<String> {
-    let t = rng.below(19);
+    let t = rng.below(20);
     tags.push(format!("cont-t{}", t));
     let a = rng.range(1, 9);
     let b = rng.range(2, 5);
@@ -279,6 +279,35 @@ pub fn block(rng: &mut Rng, u: usize, tags: &mut Vec<String>) -> Vec<String> {
                 format!("g{u}", u = u),
                 format!("(begin (set-cdr! g{u} 'tail) g{u})", u = u),
             ]
+        }
+        18 => {
+            // operands already evaluated when the continuation is captured are fresh heap objects (list,
+            // vector, closure) that only the captured stack refers to; re-entry after allocation and collection
+            let kind = rng.below(3);
+            let fresh = match kind {
+                0 => format!("(define (fresh{u} x) (list x (* x 2)))", u = u),
+                1 => format!("(define (fresh{u} x) (vector x (list x)))", u = u),
+                _ => format!("(define (fresh{u} x) (lambda (y) (+ x y)))", u = u),
+            };
+            let capture = format!("(call/cc (lambda (c) (set! k{u} c) {b}))", u = u, b = b);
+            let call = match (kind, rng.below(2)) {
+                (2, _) => format!("((lambda (f v) (list (f 1) v)) (fresh{u} {a}) {cap})", u = u, a = a, cap = capture),
+                (_, 0) => format!("(list (fresh{u} {a}) {cap} (fresh{u} {b}))", u = u, a = a, b = b, cap = capture),
+                _ => format!("(cons (fresh{u} {a}) {cap})", u = u, a = a, cap = capture),
+            };
+            let mut f = vec![
+                format!("(define k{u} #f)", u = u),
+                format!("(define n{u} 0)", u = u),
+                fresh,
+                call,
+                format!("(define (junk{u} n) (if (= n 0) '() (cons (vector n n) (junk{u} (- n 1)))))", u = u),
+                format!("(length (junk{u} 50))", u = u),
+            ];
+            for _ in 0..=r {
+                f.push(format!("(if (< n{u} {r}) (begin (set! n{u} (+ n{u} 1)) (k{u} (* n{u} 7))) 'done)", u = u, r = r));
+                f.push(format!("(length (junk{u} 30))", u = u));
+            }
+            f
         }
         _ => {
             // invoked from inside a for-each callback of a later form: abandons that loop
